@@ -659,3 +659,13 @@ H("udp_decode_recv_meta", ["C19"], "quick", "unix::decode_recv_meta",
 H("udp_effective_segment_size", ["C19"], "quick", "effective_segment_size",
   [("len", "u16"), ("has_seg", "bool"), ("seg", "usize")], 4, ["plain send", "segmented"],
   ["Transmit::effective_segment_size"], "every payload length: u16, every segment size: usize", crate="quinn_udp")
+H("path_from_previous", ["C07", "C15"], "quick", "connection::paths::from_previous",
+  [("prev_validated", "bool"), ("prev_sent", "u64"), ("prev_recvd", "u64"), ("prev_in_flight", "u64"), ("prev_gen", "u64"), ("new_gen", "u64"), ("new_port", "u16"), ("bytes_to_send", "u64")], 6,
+  ["reached"], ["PathData::from_previous", "PathData::anti_amplification_blocked", "Pacer::new"],
+  "every previous-path state (validated or not, counters < 2^62), every new port / generation")
+H("conn_handle_event_remote_check_native", ["C15"], "replay-only", "connection::handle_event_remote_check_native",
+  [("server", "bool"), ("migration", "bool"), ("same_remote", "bool")], 4, [],
+  ["Connection::handle_event"], "native replay body of E2 query e2_handle_event_remote_check")
+H("conn_first_packet_credit_native", ["C07"], "replay-only", "connection::first_packet_credit_native",
+  [("a", "u8"), ("b", "u8"), ("c", "u8")], 4, [],
+  ["Connection::handle_first_packet"], "native replay body of E2 query e2_first_packet_credit")
